@@ -259,7 +259,10 @@ def view_of(name):
             return None
         return View("action", kids=args[1:], p=[f])
     if b == "control" and args:
-        return View("control", kids=args[1:])
+        cf = {"vt::tc_hid": 1, "vt::tc_hid_uw": 2, "vt::tc_full": 3, "vt::tc_full_uw": 4}.get(args[0])
+        if cf is None:
+            return View("opaque")
+        return View("control", kids=args[1:], p=[cf])
     if b == "state" and args:
         return View("state", kids=args[1:], s=args[0])
     if b == "if_apply" and args:
@@ -332,7 +335,7 @@ def build(rows, strict=False):
         iv = impl if impl is not None else View("opaque")
         nodes.append({
             "id": r["id"], "name": r["name"], "dn": r["dn"], "op": use.op, "kids": kids, "p": p, "s": s,
-            "named": named, "en": r["en"], "vid": r["vid"], "ak": r["ak"], "sel": r["sel"], "lim": r.get("lim", 0),
+            "named": named, "en": r["en"], "vid": r["vid"], "ak": r["ak"], "sel": r["sel"], "lim": r.get("lim", 0), "sw": r.get("sw", 0),
             "hasmsg": r["hasmsg"], "emsg": r["emsg"], "thas": thas, "tmsg": tmsg, "prop": prop_of(use.op),
             "iop": iv.op, "ikids": list(r["subs"]), "ip": list(iv.p),
         })
